@@ -119,9 +119,10 @@ where
     }
 }
 
-// SAFETY: `IterMut` behaves like the `&'a mut PriorityQueue` it was created from
-unsafe impl<I: Send, P: Send + Ord, H: Send> Send for IterMut<'_, I, P, H> {}
-unsafe impl<I: Sync, P: Sync + Ord, H: Sync> Sync for IterMut<'_, I, P, H> {}
+// `IterMut` is deliberately neither `Send` nor `Sync` (the raw pointer sees to that): the
+// references it yields are bound to the borrow of the queue, not of the iterator, and its
+// `Drop` reads every priority to rebuild the heap. If the iterator could be moved to another
+// thread, that read would race with writes made through references kept by the sender.
 
 impl<'a, I: 'a, P: 'a, H: 'a> Iterator for IterMut<'a, I, P, H>
 where
